@@ -161,7 +161,7 @@ func lex(src string) ([]stok, error) {
 		}
 		if unicode.IsLetter(rune(c)) || c == '_' {
 			j := i
-			for j < len(src) && (unicode.IsLetter(rune(src[j])) || unicode.IsDigit(rune(src[j])) || src[j] == '_' || src[j] == '$') {
+			for j < len(src) && (unicode.IsLetter(rune(src[j])) || unicode.IsDigit(rune(src[j])) || src[j] == '_' || src[j] == '$' || (src[j] == '@' && j+1 < len(src) && unicode.IsDigit(rune(src[j+1])))) {
 				j++
 			}
 			toks = append(toks, stok{"ident", src[i:j], i})
